@@ -10,12 +10,12 @@ open Lm.Core
 /-- two consecutive sends to the same module end up in the mailbox in that order, behind what was already there -/
 theorem C08_sends_keep_order (s : St) (m1 m2 : Msg) (k1 k2 : TellKey) (r : ModId) (md : Mod) (q : List Msg)
     (hm : s.mods[r]? = some md) (he : md.state = .running ∨ md.state = .paused) (hp : md.pipe = some q)
-    (hroom : q.length + 1 < pipeCap) :
+    (hroom : q.length + 1 + md.pipeSkip < pipeCap) :
     ∃ c1 c2 md', (tellIf (tellIf s m1 k1 r) m2 k2 r).mods[r]? = some md' ∧ md'.pipe = some (q ++ [c1, c2]) ∧
       c1.payload = m1.payload ∧ c2.payload = m2.payload := by
-  obtain ⟨c1, md1, h1, p1, _, _, pay1, _, st1, _⟩ := Lm.Props.C02.C02_eligible_gets_one_copy s m1 k1 r md q hm he hp (by omega)
-  obtain ⟨c2, md2, h2, p2, _, _, pay2, _, _, _⟩ := Lm.Props.C02.C02_eligible_gets_one_copy (tellIf s m1 k1 r) m2 k2 r md1 (q ++ [c1]) h1
-    (by rw [st1]; exact he) p1 (by simp; omega)
+  obtain ⟨c1, md1, h1, p1, _, _, pay1, _, st1, _, sk1⟩ := Lm.Props.C02.C02_eligible_gets_one_copy s m1 k1 r md q hm he hp (by omega)
+  obtain ⟨c2, md2, h2, p2, _, _, pay2, _, _, _, _⟩ := Lm.Props.C02.C02_eligible_gets_one_copy (tellIf s m1 k1 r) m2 k2 r md1 (q ++ [c1]) h1
+    (by rw [st1]; exact he) p1 (by rw [sk1]; simp; omega)
   exact ⟨c1, c2, md2, h2, by rw [p2]; simp, pay1, pay2⟩
 
 /-- the flush at loop stop hands the handler the messages that precede a pill, in mailbox order; the pill and
@@ -44,11 +44,11 @@ theorem C08_flush_prefix_in_order (q : List Msg) :
 /-- a pill sent to a RUNNING module is appended behind every earlier message, like any other message -/
 theorem C08_pill_is_ordered (s : St) (m r : ModId) (md : Mod) (q : List Msg)
     (hm : (s.updMod m fun x => { x with sent := x.sent + 1 }).mods[r]? = some md) (he : md.state = .running) (hp : md.pipe = some q)
-    (hroom : q.length < pipeCap) :
+    (hroom : q.length + md.pipeSkip < pipeCap) :
     ∃ c md', (tellSystem s (some r) (some m) T_POISONPILL true).mods[r]? = some md' ∧ md'.pipe = some (q ++ [c]) ∧ c.pill = true := by
   unfold tellSystem tellPubsub
   simp only
-  obtain ⟨c, md', h1, h2, _, _, _, _, _, h3⟩ := Lm.Props.C02.C02_eligible_gets_one_copy
+  obtain ⟨c, md', h1, h2, _, _, _, _, _, h3, _⟩ := Lm.Props.C02.C02_eligible_gets_one_copy
     (s.updMod m fun x => { x with sent := x.sent + 1 })
     { sender := some m, topic := some T_POISONPILL, payload := 0, sys := true, holder := none, sub := none, pill := true }
     .direct r md q hm (Or.inl he) hp hroom
